@@ -445,7 +445,7 @@ func TestWordsExhaustive(t *testing.T) {
 func TestStringLengthsExhaustive(t *testing.T) {
 	s := vf.Begin(t, P, "string-lengths-exhaustive")
 	s.SetExhaustive()
-	max := vf.N(700, 4096)
+	max := vf.Size(700, 4096)
 	s.Note("every buffer length 0..%d for the five SMB_STRING formats and OEM_STRING, plus 65534 and 65535", max)
 	vf.Enum(s, func(yield func(wireCase)) {
 		for _, typ := range allTypes[:6] {
